@@ -647,6 +647,12 @@ class GenEval(AutoEvaluator):
         d = self.canon_dotted(node)
         if d is not None and d in self.env:
             return self.env[d]
+        if d is not None and d in self.inline and self.inline_depth < 5 and self.inline[d] is not self.fn and isinstance(node.ctx, ast.Load) \
+                and any((dotted(x) or "").split(".")[-1] in ("property", "cached_property") for x in self.inline[d].decorator_list):
+            call = ast.copy_location(ast.Call(func=node, args=[], keywords=[]), node)       # a property: reading it runs the method
+            r = self._inline(call, d)
+            if r is not NotImplemented:
+                return r
         base = self._ev(node.value)
         return self.attr_value(base, node.attr, node)
 
@@ -1121,6 +1127,8 @@ class GenEval(AutoEvaluator):
                 return self._lost(f"`{ast.unparse(node)[:60]}`: a method of an object created here that cannot be followed")
             return r
         name = self._callee_name(node)
+        if name is not None and name not in self.inline:
+            name = self._lib_name(name)               # `from operator import matmul as _mm` -> operator.matmul; numpy.x -> np.x
         fv = self._callee_value(node)
         if fv is not None:
             r = self._apply_value(fv, node)
@@ -1129,7 +1137,8 @@ class GenEval(AutoEvaluator):
             s_ = symname(fv)
             if s_ is not None and s_ in self.inline:
                 name = s_          # a local that names a function / bound method defined elsewhere: `step = _cdf_step`, `f = self._helper`
-            elif s_ is not None and "." in s_ and s_.split(".")[0] in self._lib_modules() and isinstance(node.func, ast.Name):
+            elif s_ is not None and "." in s_ and (s_.split(".")[0] in self._lib_modules() or s_.split(".")[0] in ("operator", "np", "numpy", "scipy", "math", "la"))\
+                    and isinstance(node.func, ast.Name):
                 name = s_          # a library function under another name: `times = operator.mul if unc else operator.matmul`, `mm = np.matmul`
             elif isinstance(node.func, ast.Name):
                 # a name bound here to something that is not a function the engine knows: what the call computes (and changes) is not known
@@ -1245,6 +1254,28 @@ class GenEval(AutoEvaluator):
             v = self.ev(args[0])
             t = truth(v, self.facts)
             return v if t is None else F.sym("True" if t else "False")
+        if name in ("functools.reduce", "reduce") and 2 <= len(args) <= 3 and not kw:
+            seq = self.ev(args[1])
+            if isinstance(seq, tuple) and (seq or len(args) == 3):
+                fv = self.ev(args[0])
+                opn = self._lib_name(symname(fv)) if isinstance(fv, F.Rat) and symname(fv) else None
+                items = list(seq)
+                acc = self.ev(args[2]) if len(args) == 3 else items.pop(0)
+                for x in items:
+                    if is_callable_value(fv):
+                        acc = self._apply_value(fv, node, ([acc, x], {}))
+                    elif opn in _OPERATOR_BIN:
+                        acc = self._arith(_OPERATOR_BIN[opn](), acc, x)
+                    else:
+                        return self._lost(f"`{ast.unparse(node)[:60]}`: reduce with a function the engine cannot follow")
+                return acc
+        if name == "sum" and 1 <= len(args) <= 2 and set(kw) <= {"start"}:
+            v = self.ev(args[0])
+            if isinstance(v, tuple):
+                tot = self.ev(args[1]) if len(args) == 2 else (self.ev(kw["start"]) if "start" in kw else F.const(0))
+                for x in v:
+                    tot = self._arith(ast.Add(), tot, x)      # 0 + x0 + x1 + ...: the association Python uses
+                return tot
         if name == "len" and len(args) == 1 and not kw:
             v = self.ev(args[0])
             if isinstance(v, tuple):
@@ -1965,7 +1996,10 @@ class GenEval(AutoEvaluator):
         if isinstance(st, (ast.Import, ast.ImportFrom)):
             for al in st.names:
                 nm = (al.asname or al.name).split(".")[0]
-                self.env.setdefault(nm, F.sym(nm))
+                if isinstance(st, ast.ImportFrom) and st.level == 0 and st.module:
+                    self.env[nm] = F.sym(self._lib_name(f"{st.module}.{al.name}"))      # `from operator import mul`: the library function
+                else:
+                    self.env.setdefault(nm, F.sym(nm))
             return
         if isinstance(st, ast.Try):
             # the path without an exception: accepted inputs raise nothing (the handlers are not followed)
@@ -2034,15 +2068,17 @@ class GenEval(AutoEvaluator):
 
     def _lib_name(self, name):
         """`count` imported by `from itertools import count` -> 'itertools.count'"""
-        if name is None or "." in name:
+        if name is None:
             return name
+        if "." in name:
+            return "np." + name[6:] if name.startswith("numpy.") else name
         m = getattr(self.fn, "_vmod", None)
         if m is not None and name not in self.env and name not in self.locals_:
             for st in m.tree.body:
                 if isinstance(st, ast.ImportFrom) and st.level == 0 and st.module:
                     for al in st.names:
                         if (al.asname or al.name) == name:
-                            return f"{st.module}.{al.name}"
+                            return self._lib_name(f"{st.module}.{al.name}")
         return name
 
     def _gen_loop(self, st, item=None):
